@@ -673,7 +673,7 @@ def nativeOrderOKExcept (skip : String → String → String → Bool) (key iden
 def nativeOrderOK (key ident : String) : Bool := nativeOrderOKExcept (fun _ _ _ => false) key ident
 
 /-- the one slot whose C argument is known to differ from the intended member
-    (finding C20-bsd-saved-gid, PENDING(fixes/C20-bsd-saved-gid.diff)) -/
+    (defect C20-bsd-saved-gid, repaired by /repo c9c8f6b; the exception is kept so that `_partial` still builds on a tree without the repair) -/
 def savedGidSlot (key ident slot : String) : Bool :=
   key == "bsd.kinfo_proc_map" && ["freebsd", "openbsd", "netbsd"].contains ident && slot == "saved_gid"
 
@@ -690,8 +690,8 @@ def nativeTupleOK (k : String × String) : Bool :=
     call itself (format string and argument list, read by the translator through the
     preprocessor branch of each identity) — and that argument is the struct member the slot is
     NAMED FOR (`Spec.slotCExpr`: the intended member, e.g. `saved_gid` ↦ `ki_svgid` / `p_svgid`).
-    The same for the native tuples unpacked positionally. FALSE of the code as it is
-    (`C20_native_slot_order_counterexample`). -/
+    The same for the native tuples unpacked positionally. True of the code as it is (`C20_native_slot_order`);
+    it was false before /repo c9c8f6b (saved_gid slot filled from the saved uid member). -/
 def C20_native_slot_order_Full : Prop :=
     (∀ k ∈ slotMapKeys, nativeOrderOK k.1 k.2 = true) ∧
     (∀ k ∈ Spec.tupleCExpr.map (·.1), nativeTupleOK k = true) ∧
@@ -719,27 +719,27 @@ theorem C20_native_slot_order_other_records :
     ∀ k ∈ slotMapKeys, k.1 ≠ "bsd.kinfo_proc_map" → nativeOrderOK k.1 k.2 = true := by
   decide +kernel
 
-/-- **C20_native_slot_order_counterexample.** The full statement is false of the code as it is: on
-    each of the three BSDs the argument `Py_BuildValue` is given at the index of
-    `kinfo_proc_map['saved_gid']` is NOT the saved gid member (`ki_svgid` / `p_svgid`) but the very
-    expression passed at `kinfo_proc_map['saved_uid']` — the saved *uid* member: `gids().saved` is the
-    saved uid there (finding C20-bsd-saved-gid, PENDING(fixes/C20-bsd-saved-gid.diff)). Witness =
-    the parsed C call (the native layer cannot be executed here). -/
-theorem C20_native_slot_order_counterexample :
-    ¬ C20_native_slot_order_Full ∧
+/-- **C20_native_slot_order.** The full statement holds of the code as it is (since /repo c9c8f6b,
+    `fix: BSD Process.gids().saved returned the saved *uid*`): on FreeBSD / OpenBSD / NetBSD the argument
+    at the index of `kinfo_proc_map['saved_gid']` is the saved gid member (`ki_svgid` / `p_svgid`).
+    Before that commit the very expression of the `saved_uid` slot was passed there (defect
+    C20-bsd-saved-gid, fixed); re-introducing it breaks this theorem, and
+    `C20_saved_gid_is_not_saved_uid` names the slot. -/
+theorem C20_native_slot_order : C20_native_slot_order_Full := by
+  unfold C20_native_slot_order_Full
+  decide +kernel
+
+/-- the saved-gid and saved-uid slots of the three BSD records are different indices holding
+    different C expressions, each the member the slot is named for -/
+theorem C20_saved_gid_is_not_saved_uid :
     ∀ ident ∈ ["freebsd", "openbsd", "netbsd"],
       (match nativeArgsOf "bsd.kinfo_proc_map" ident, (Spec.slotCExpr.lookup ("bsd.kinfo_proc_map", ident)),
              (slotMapOf "bsd.kinfo_proc_map").lookup "saved_gid", (slotMapOf "bsd.kinfo_proc_map").lookup "saved_uid" with
        | some (_, args), some tbl, some g, some u =>
-         g != u && args[g]? == args[u]? && (args[g]?).isSome && args[g]? != tbl.lookup "saved_gid"
+         g != u && args[g]? != args[u]? && (args[g]?).isSome && args[g]? == tbl.lookup "saved_gid"
            && args[u]? == tbl.lookup "saved_uid"
        | _, _, _, _ => false) = true := by
-  constructor
-  · intro h
-    have := h.1 ("bsd.kinfo_proc_map", "freebsd") (by decide)
-    revert this
-    decide +kernel
-  · decide +kernel
+  decide +kernel
 
 /-- non-vacuous: FreeBSD's slot 14 (`user_time`) is `PSUTIL_TV2DOUBLE(kp.ki_rusage.ru_utime)` -/
 example : (nativeArgsOf "bsd.kinfo_proc_map" "freebsd").map (·.2[14]?) = some (some "PSUTIL_TV2DOUBLE(kp.ki_rusage.ru_utime)") ∧
